@@ -6,7 +6,7 @@ import drvlib as D
 
 OBLIGATIONS = [
     'Cvise.C01.commit_tested', 'Cvise.C01.runPass_safe', 'Cvise.C01.reduce_safe', 'Cvise.C01.single_file_key_counterexample', 'Cvise.C01.shipped_key_ok',
-    'Cvise.D.roundLoop_sound', 'Cvise.D.isAccept_iff', 'Cvise.D.check_accept', 'Cvise.D.fileLoop_safe', 'Cvise.D.fileStep_inv',
+    'Cvise.D.roundLoop_sound', 'Cvise.D.isAccept_iff', 'Cvise.D.check_accept', 'Cvise.D.fileLoop_safe', 'Cvise.D.fileStep_inv', 'Cvise.C01.reduce_gated_safe',
 ]
 
 # finding F1 as a scenario: two identical test cases, a pass that empties a file, interesting iff some file keeps "foo"
